@@ -19,6 +19,7 @@ PROPS = {"rf": "drf_properties.h5", "dmd": "dmd_properties.h5"}
 NKEYS = 6
 
 LEVEL = "proof"
+PATH_MODES = ["plain", "symdir", "plain", "symfiles"]
 
 
 # ----------------------------------------------------------------------------- universe
@@ -98,15 +99,34 @@ class Impl:
         from digital_rf import ringbuffer
         from watchdog import events
         self.rbmod, self.ev = ringbuffer, events
-        self.top = os.path.join(base or scratch_base(), "w")
+        self.base = base or scratch_base()
+        self.top = os.path.join(self.base, "w")
+        self.real_top = os.path.join(self.base, "w_real")     # mode symdir: w -> w_real
+        self.arch = os.path.join(self.base, "archive")        # mode symfiles: data files are links into it
         self.u = universe(self.top)
         self.handler = None
         self.files = {}
+        self.nreset = 0
+        self.mode = "plain"
+        self.force_mode = None
 
     def reset(self, cfg):
+        """how the watched tree is spelled rotates over the histories: a plain directory; a path through a
+        symbolic link to the directory (/data -> /mnt/disk1: every reported path keeps the link's spelling);
+        data files that are symbolic links into an archive outside the tree (what `drf ln --symbolic` makes):
+        the handler must track and delete the paths as reported, never anything outside the tree"""
         size, count, dur = cfg
-        if os.path.isdir(self.top):
-            shutil.rmtree(self.top)
+        self.mode = self.force_mode or PATH_MODES[self.nreset % len(PATH_MODES)]
+        self.nreset += 1
+        if os.path.islink(self.top):
+            os.unlink(self.top)
+        for d in (self.top, self.real_top, self.arch):
+            if os.path.isdir(d):
+                shutil.rmtree(d)
+        if self.mode == "symdir":
+            os.makedirs(self.real_top)
+            os.symlink(self.real_top, self.top)
+        self.archived = []
         for g in range(4):
             os.makedirs(os.path.join(self.top, CH[g]), exist_ok=True)
         kw = {}
@@ -165,7 +185,16 @@ class Impl:
         if kind == "W":
             p = P(op[1])
             os.makedirs(os.path.dirname(p), exist_ok=True)
-            with open(p, "wb") as f:
+            t = self.u.get(p)
+            if self.mode == "symfiles" and t is not None and t[0] >= 0 and not os.path.lexists(p):
+                os.makedirs(self.arch, exist_ok=True)
+                a = os.path.join(self.arch, "%d-%s" % (len(self.archived), os.path.basename(p)))
+                self.archived.append(a)
+                with open(a, "wb") as f:
+                    f.write(b"x" * op[2])
+                os.symlink(a, p)
+                return None
+            with open(p, "wb") as f:          # (through the link when p is one)
                 f.write(b"x" * op[2])
             return None
         if kind == "X":
@@ -285,6 +314,14 @@ def oracle(impl, op, before_disk, after_disk, exc):
     size, count, dur = impl.cfg
     if exc:
         out.append(("handler-raises", "the handler raised inside the configured limits", "no exception", exc))
+    gone = [a for a in impl.archived if not os.path.exists(a)]
+    if gone:
+        out.append(("deletes-outside-the-tree", "a file outside the watched tree was deleted (the watched data files are "
+                    "symbolic links to it)", "only paths inside the watched tree", gone[:4]))
+    for path, _pre in impl.removed:
+        if not (path == impl.top or path.startswith(impl.top + os.sep)):
+            out.append(("deletes-outside-the-tree", "the handler removed a path that is not under the watched directory as it "
+                        "was given", "a path under " + impl.top, path))
     # every deletion: tracked, trackable kind, oldest of its channel, a limit truly exceeded
     for path, pre in impl.removed:
         t = u.get(path)
@@ -381,7 +418,7 @@ def run_history_impl(impl, cfg, ops):
         raw = impl.disk()
         st = canon_impl(impl, exc, raw)
         for v in oracle(impl, op, before, raw, exc):
-            viols.append((i, v))
+            viols.append((i, v + (impl.mode,)))
         states.append(st)
         before = raw
         if exc:
@@ -470,9 +507,9 @@ def check_batch(res, batch, tag):
         res.count("steps", len(states))
         res.count("deletions", sum(len(st["dels"]) for st in states))
         for i, v in viols:
-            sig, title, exp, obs = v
-            res.violation(sig, title, {"cfg": list(cfg), "ops": [list(o) for o in ops[:i + 1]], "failing_step": i},
-                          exp, obs)
+            sig, title, exp, obs, mode = v
+            res.violation(sig, title, {"cfg": list(cfg), "ops": [list(o) for o in ops[:i + 1]], "failing_step": i,
+                                       "path_mode": mode}, exp, obs)
     return agree, detail, results
 
 
@@ -689,6 +726,9 @@ def dec_op(o):
 def replay(res, rp):
     impl = Impl()
     i = rp["input"]
+    impl.force_mode = i.get("path_mode") or "plain"
+    print("watched tree:", {"plain": "a plain directory", "symdir": "reached through a symbolic link to the directory",
+                            "symfiles": "data files are symbolic links into an archive outside the tree"}[impl.force_mode])
     cfg = tuple(i["cfg"])
     ops = [dec_op(o) for o in i["ops"]]
     ops, states, viols = run_history_impl(impl, cfg, ops)
